@@ -160,6 +160,22 @@ Proof.
     + inversion H; subst. split; [exact Hwf | intros; discriminate].
 Qed.
 
+Lemma in_handler_wf : forall T f ord fs x rest,
+  wf_script fs = true -> in_handler T f ord fs = (x, rest) ->
+  wf_script rest = true /\ (forall e, x = Some e -> is_exception e = true).
+Proof.
+  intros T f ord fs x rest Hwf H. unfold in_handler in H.
+  destruct (may_raise T f ord).
+  - destruct fs as [|y fs].
+    + inversion H; subst. split; [reflexivity | intros; discriminate].
+    + destruct (wf_cons _ _ Hwf) as [He Hfs].
+      destruct (fn_eqb (f_fn y) f).
+      * destruct (route T f (outer_of T f ord) (f_exc y));
+          inversion H; subst; (split; [exact Hfs | intros e Hx; inversion Hx; subst; exact He]).
+      * inversion H; subst. split; [exact Hwf | intros; discriminate].
+  - inversion H; subst. split; [exact Hwf | intros; discriminate].
+Qed.
+
 Lemma hook_call_wf : forall T f fs x rest,
   wf_script fs = true -> hook_call T f fs = (x, rest) ->
   wf_script rest = true /\ (forall e, x = Some e -> is_exception e = true).
@@ -168,14 +184,35 @@ Proof.
   - inversion H; subst. split; [reflexivity | intros; discriminate].
   - destruct (wf_cons _ _ Hwf) as [He Hfs].
     destruct (fn_eqb (f_fn y) f).
-    + destruct (route T f (asite T f KClientDisconnect 0) (f_exc y));
-        inversion H; subst; (split; [exact Hfs | intros e Hx; inversion Hx; subst; exact He]).
+    + destruct (route T f (asite T f KClientDisconnect 0) (f_exc y)) as [ord act|].
+      * eapply in_handler_wf; eassumption.
+      * inversion H; subst. split; [exact Hfs | intros e Hx; inversion Hx; subst; exact He].
     + inversion H; subst. split; [exact Hwf | intros; discriminate].
 Qed.
+
+Lemma no_format_may_raise : forall T f, no_format T f = true -> forall ord, may_raise T f ord = false.
+Proof.
+  intros T f H ord. unfold no_format in H. unfold may_raise.
+  induction (t_anchors T) as [|a l IH]; simpl in *.
+  - reflexivity.
+  - apply andb_true_iff in H. destruct H as [Ha Hl]. rewrite (IH Hl). rewrite orb_false_r.
+    apply negb_true_iff in Ha.
+    destruct (fn_eqb (a_fn a) f && ckind_eqb (a_kind a) KFormatExc); simpl in *.
+    + destruct (a_handler a); [discriminate | reflexivity].
+    + reflexivity.
+Qed.
+
+Lemma no_format_in_handler : forall T f, no_format T f = true -> forall ord fs, in_handler T f ord fs = (None, fs).
+Proof. intros T f H ord fs. unfold in_handler. rewrite (no_format_may_raise T f H ord). reflexivity. Qed.
 
 Section Safe.
 Variable T : tables.
 Hypothesis Hsafe : safe_tables T = true.
+
+Lemma safe_formats : no_format T FMuxHandleReq = true /\ no_format T FMuxEvents = true.
+Proof.
+  pose proof Hsafe as H. unfold safe_tables in H. repeat rewrite andb_true_iff in H. tauto.
+Qed.
 
 Lemma safe_parts :
   safe T ok_swallow FWorkerRun (asite T FWorkerRun KJob 0) = true /\
@@ -228,7 +265,8 @@ Proof.
     destruct (fn_eqb (f_fn y) FMuxEvents).
     + destruct safe_parts as [_ [_ [_ [_ Hd]]]].
       destruct (safe_sound T _ _ _ (f_exc y) He Hd) as [ord [act [Hr Hok]]].
-      rewrite Hr in H. inversion H; reflexivity.
+      rewrite Hr in H. destruct safe_formats as [_ Hf].
+      rewrite (no_format_in_handler T FMuxEvents Hf) in H. inversion H; reflexivity.
     + inversion H; reflexivity.
 Qed.
 
@@ -238,13 +276,15 @@ Proof.
   intros q fs rep lv hook dies rest Hwf H. unfold mux_request in H.
   destruct (hr_loop T q fs) as [[r rp] fs1] eqn:Hh.
   destruct (hr_loop_wf T q fs r rp fs1 Hwf Hh) as [Hw1 He].
-  destruct (hook_call T FMuxEvents fs1) as [x fs2] eqn:Hk.
-  pose proof (mux_hook_contained fs1 x fs2 Hw1 Hk) as Hx. subst x.
   destruct r as [v|e].
   - inversion H; reflexivity.
   - destruct safe_parts as [_ [_ [_ [Hd _]]]].
     destruct (safe_sound T _ _ _ e (He e eq_refl) Hd) as [ord [act [Hr Hok]]].
-    rewrite Hr in H. destruct act; inversion H; reflexivity.
+    rewrite Hr in H. destruct safe_formats as [Hf _].
+    rewrite (no_format_in_handler T FMuxHandleReq Hf) in H.
+    destruct (hook_call T FMuxEvents fs1) as [x fs2] eqn:Hk.
+    pose proof (mux_hook_contained fs1 x fs2 Hw1 Hk) as Hx. subst x.
+    destruct act; inversion H; reflexivity.
 Qed.
 
 (* the worker always gets back to the pool *)
@@ -279,12 +319,19 @@ Proof.
   destruct (hr_loop T q fs) as [[r rp] fs1] eqn:Hh.
   destruct (hr_loop_wf T q fs r rp fs1 Hwf Hh) as [Hw1 He].
   destruct r as [v|e]; [inversion H; reflexivity|].
-  destruct (thr_finally T fs1) as [[fe hk] fs2] eqn:Hf.
-  pose proof (thr_finally_wf fs1 fe hk fs2 Hw1 Hf) as Hfe.
   destruct (route T FJobCall (asite T FJobCall KHandleRequest 0) e) as [ord act|].
-  - destruct act; inversion H; try reflexivity;
-      (destruct fe as [e2|]; [apply worker_survives_true; apply Hfe; reflexivity | reflexivity]).
-  - inversion H. apply worker_survives_true.
+  - destruct (in_handler T FJobCall ord fs1) as [hx fs1'] eqn:Hi.
+    destruct (in_handler_wf T FJobCall ord fs1 hx fs1' Hw1 Hi) as [Hw1' Hhx].
+    destruct (thr_finally T fs1') as [[fe hk] fs2] eqn:Hf.
+    pose proof (thr_finally_wf fs1' fe hk fs2 Hw1' Hf) as Hfe.
+    destruct hx as [e1|].
+    + inversion H. apply worker_survives_true.
+      destruct fe as [e2|]; [apply Hfe; reflexivity | apply Hhx; reflexivity].
+    + destruct act; inversion H; try reflexivity;
+        (destruct fe as [e2|]; [apply worker_survives_true; apply Hfe; reflexivity | reflexivity]).
+  - destruct (thr_finally T fs1) as [[fe hk] fs2] eqn:Hf.
+    pose proof (thr_finally_wf fs1 fe hk fs2 Hw1 Hf) as Hfe.
+    inversion H. apply worker_survives_true.
     destruct fe as [e2|]; [apply Hfe; reflexivity | apply He; reflexivity].
 Qed.
 
